@@ -1,1 +1,37 @@
-"""placeholder; filled in below"""
+"""Small source-shape translators (regenerated tables): ordered I/O calls of functions whose
+correctness rests on the *order* of their file operations."""
+import ast, os
+from tools.translate import register
+from tools.translate_py import Unsupported, find_func
+
+
+def io_calls(fn, handle="f", extra_writers=("write_thrift",)):
+    """ordered list of method names called on `handle` inside fn (textual order), counting
+    helper(handle, ...) calls listed in extra_writers as 'write'."""
+    calls = []
+    for node in ast.walk(fn):
+        if isinstance(node, ast.Call):
+            f = node.func
+            if isinstance(f, ast.Attribute) and isinstance(f.value, ast.Name) and f.value.id == handle:
+                calls.append((node.lineno, node.col_offset, f.attr))
+            elif isinstance(f, ast.Name) and f.id in extra_writers and node.args and isinstance(node.args[0], ast.Name) \
+                    and node.args[0].id == handle:
+                calls.append((node.lineno, node.col_offset, "write"))
+    return [c[2] for c in sorted(calls)]
+
+
+@register("FooterIO")
+def gen_footer_io(repo):
+    src = open(os.path.join(repo, "fastparquet", "writer.py")).read()
+    fn = find_func(ast.parse(src), "update_file_custom_metadata")
+    ops = io_calls(fn)
+    if not ops:
+        raise Unsupported("no file operations found in update_file_custom_metadata")
+    lst = ", ".join('"%s"' % o for o in ops)
+    return ("-- REGENERATED on every run by tools/translate_callsites.py from fastparquet/writer.py — do not edit\n"
+            "namespace PqV.Gen.FooterIO\n"
+            f"/-- file-method calls of `update_file_custom_metadata` (line {fn.lineno}) in source order -/\n"
+            f"def ioOps : List String := [{lst}]\n"
+            "/-- does the function truncate the file after writing the new trailer? -/\n"
+            "def truncates : Bool := ioOps.getLast? == some \"truncate\"\n"
+            "end PqV.Gen.FooterIO\n")
